@@ -45,7 +45,7 @@ def job_default(ses):
         now = nows[0]
         want = And(Select(P, EXP), Select(P, IAT), Select(P, NBF), Implies(And(kq != EXP, kq != IAT, kq != NBF), Not(Select(P, kq))),
                    Select(V, EXP) == JV.Str(um.render3339(now + 3600 * 10**9)), Select(V, IAT) == JV.Str(um.render3339(now)), Select(V, NBF) == JV.Str(um.render3339(now)),
-                   Not(f_['non_expiring_token']), Not(f_['dup_top_level_found'][1][0]), Not(Select(f_['top_level_claims'][1], kq)))
+                   *([Not(f_['non_expiring_token']), Not(f_['dup_top_level_found'][1][0]), Not(Select(f_['top_level_claims'][1], kq))] if all(k_ in f_ for k_ in ('non_expiring_token', 'dup_top_level_found', 'top_level_claims')) else []))
         rec = upper_obligation(ses, 'default(): claims are exactly exp = now+1h, iat = nbf = now (RFC 3339 of one clock reading); no acknowledgement, no duplicate flag, empty key set',
                                list(s2.pc) + mapdefs_lemmas(s2, [EXP, IAT, NBF, kq]) + [Not(want)], values=[kq])
         if rec: ses.violation('PasetoBuilder::default() does not set exp=now+1h / iat=nbf=now (or starts with stale duplicate-tracking state)', fmt_model(['key'], rec), {'kind': 'c13'})
@@ -57,6 +57,7 @@ def job_default(ses):
 def job_set_claim(ses):
     """set_claim(k, v): exp stays present if it was; claims[k] = v afterwards (k non-empty); no other key changes except nbf being re-set"""
     w = world(); ex = upper_executor(w); sb = SymBuilder(w)
+    if not sb.layout_ok(True): ses.notes.append(LAYOUT_NOTE); ses.bounds['builder layout'] = 'unknown to the harness: bounded histories only'; return
     f = w.fn(PB, 'set_claim'); k = String('k_new'); val = Const('v_new', JV); kq = String('k_any')
     st = new_state([Length(k) < 2**30]); cell = st.new_cell(sb.value())
     for s2, r in ex.run(f, [('ref', cell, ()), ('opaque_claim', k, val)], st, subst={'T': 'SymClaim'}):
@@ -71,6 +72,7 @@ def job_set_claim(ses):
 
 def job_build(ses, proto):
     w = world(); ex = upper_executor(w); sb = SymBuilder(w); p = PROTOCOLS[proto]
+    if not sb.layout_ok(True): ses.notes.append(LAYOUT_NOTE); ses.bounds['builder layout'] = 'unknown to the harness: bounded histories only'; return
     vt = w.type_text(proto)
     fs = [g for g in w.fns if g.file == PB and g.method == 'build' and g.impl and vt[0].split('::')[-1] in g.impl[1] and vt[1].split('::')[-1] in g.impl[1]]
     if len(fs) != 1: raise Unsupported('PasetoBuilder::<%s>::build: %d bodies' % (proto, len(fs)))
@@ -111,7 +113,8 @@ def job_build(ses, proto):
 
 def run(ses):
     jobs = [(job_default, ()), (job_set_claim, ()), (c17.job_ack, ())] + [(job_build, (p,)) for p in PROTOCOLS]
-    jobs += [(job_histories, (2 if ses.tier == 'quick' else 3, ('c13',), i, 8)) for i in range(8)]
+    deep = ses.tier != 'quick' or not SymBuilder(world()).layout_ok(True)       # an unknown builder layout leaves only the histories: they go one call deeper
+    jobs += [(job_histories, (3 if deep else 2, ('c13',), i, 8)) for i in range(8)]
     run_jobs(ses, jobs)
     ses.trusted_base = TRUSTED
     ses.assumptions = ['invariant: not acknowledged => exp is among the builder\'s claims; established by default(), preserved by set_claim / acknowledgement / build (each an obligation here), so it holds after every call sequence including repeated builds',
